@@ -19,6 +19,7 @@ RULE = (
     "shape / disk sketch class, frame); the addressed entity's geometry is compared with the cell computed by the harness "
     "from the construction parameters; deleting an addressed operation must remove exactly that block from the written "
     "file. non-trivial = every addressed index"
+    " Revolved stacks with a negative angle / an axis off the origin."
 )
 ASSUMPTIONS = ["cells are identified by their centre / corner positions computed independently from the construction parameters"]
 
